@@ -461,7 +461,18 @@ func pathDepth(v ssa.Value, d int) string {
 		if x.Low == nil && x.High == nil {
 			return pathDepth(x.X, d+1)
 		}
-		return ""
+		base := pathDepth(x.X, d+1)
+		if base == "" {
+			return ""
+		}
+		lo, hi := "", ""
+		if x.Low != nil {
+			lo = indexPath(x.Low, d)
+		}
+		if x.High != nil {
+			hi = indexPath(x.High, d)
+		}
+		return strings.TrimPrefix(base, "&") + "[" + lo + ":" + hi + "]"
 	case *ssa.TypeAssert:
 		base := pathDepth(x.X, d+1)
 		if base == "" {
